@@ -1,5 +1,6 @@
 import Zrnt.Beacon.Spec.Epoch
 import Zrnt.Beacon.Impl.Altair
+import Zrnt.Beacon.Impl.Final
 /-!
 # Code-shaped model `M` of the places where zrnt's epoch processing is shaped differently from the spec
 
@@ -259,6 +260,36 @@ def effectiveBalanceM (cfg : Config) (flats : List Validator) (s : State) : SM S
   let vals := processEffectiveBalanceUpdates cfg flats s.validators s.balances
   pure { s' with validators := vals }
 
+def eth1ResetM (cfg : Config) (s : State) : SM State := do
+  let s' ← process_eth1_data_reset cfg s
+  pure { s' with eth1_data_votes := processEth1DataReset cfg (get_current_epoch cfg s + 1) s.eth1_data_votes }
+
+def slashingsResetM (cfg : Config) (s : State) : SM State := do
+  let s' ← process_slashings_reset cfg s
+  pure { s' with slashings := processSlashingsReset cfg (get_current_epoch cfg s + 1) s.slashings }
+
+def randaoResetM (cfg : Config) (s : State) : SM State := do
+  let s' ← process_randao_mixes_reset cfg s
+  pure { s' with randao_mixes := processRandaoMixesReset cfg (get_current_epoch cfg s + 1) s.randao_mixes }
+
+def historicalM (cfg : Config) (s : State) : SM State := do
+  if s.fork ≥ .capella then
+    let s' ← process_historical_summaries_update cfg s
+    pure { s' with historical_summaries :=
+      processHistoricalSummariesUpdate cfg (get_current_epoch cfg s + 1) s.block_roots s.state_roots s.historical_summaries }
+  else
+    let s' ← process_historical_roots_update cfg s
+    pure { s' with historical_roots :=
+      processHistoricalRootsUpdate cfg (get_current_epoch cfg s + 1) s.block_roots s.state_roots s.historical_roots }
+
+def participationM (s : State) : SM State := do
+  if s.fork = .phase0 then
+    let r := processParticipationRecordUpdates s.current_epoch_attestations
+    pure { s with previous_epoch_attestations := r.1, current_epoch_attestations := r.2 }
+  else
+    let r := processParticipationFlagUpdates s.current_epoch_participation
+    pure { s with previous_epoch_participation := r.1, current_epoch_participation := r.2 }
+
 /-- The fork's `ProcessEpoch` pipeline with the snapshot `flats` taken once at the start. -/
 def processEpochM (cfg : Config) (agg : AggOracle) (s : State) : SM State := do
   let flats := s.validators
@@ -267,14 +298,12 @@ def processEpochM (cfg : Config) (agg : AggOracle) (s : State) : SM State := do
   let s ← if s.fork = .phase0 then process_rewards_and_penalties cfg s else rewardsAltairM cfg s
   let s ← registryM cfg flats s
   let s ← slashingsM cfg flats s
-  let s ← process_eth1_data_reset cfg s
+  let s ← eth1ResetM cfg s
   let s ← effectiveBalanceM cfg flats s
-  let s ← process_slashings_reset cfg s
-  let s ← process_randao_mixes_reset cfg s
-  let s ← if s.fork ≥ .capella then process_historical_summaries_update cfg s else process_historical_roots_update cfg s
-  if s.fork = .phase0 then process_participation_record_updates s
-  else
-    let s ← process_participation_flag_updates s
-    process_sync_committee_updates cfg agg s
+  let s ← slashingsResetM cfg s
+  let s ← randaoResetM cfg s
+  let s ← historicalM cfg s
+  let s ← participationM s
+  if s.fork = .phase0 then pure s else process_sync_committee_updates cfg agg s
 
 end Zrnt.Beacon.Impl
